@@ -150,6 +150,8 @@ class Region(object):
         if depth not in self.pixeldict:
             self.pixeldict[depth] = set()
         self.pixeldict[depth].update(set(pix))
+        # any change invalidates the cached deepest-level representation
+        self.demoted = set()
 
     def get_area(self, degrees=True):
         """
